@@ -227,6 +227,12 @@ def _run(tape, clock):
     spec2.outputs = copy.deepcopy(spec.outputs)
     overrides = {}
     edits = [apply_edit(tape, run, spec2, overrides) for _ in range(nedits)]
+    if tape.draw(4) == 3:
+        # the replayed code asks for a discard or forced sampling (nothing is being recorded: both are no-ops that must not
+        # disturb what is captured)
+        for _ in range(1 + tape.draw(2)):
+            spec2.body.insert(tape.draw(len(spec2.body) + 1), [tape.choice(['discard', 'force'])])
+        run.probe('discard_or_force_called_in_replay')
     store = C.gen_store(tape, clock)
     run.config = {'cassette': store.describe(), 'edits': edits}
     for line in spec.describe():
@@ -298,6 +304,24 @@ def _run(tape, clock):
             run.probe('operation_raised')
         run.nontrivial = bool(rep.svc.sent)
         run.ev('outputs', sorted(pm.items()), sorted(rm.items()))
+        if not run.violations and tape.draw(3) == 2:
+            # a consumer normalises the outputs it was handed in place; a second replay must again report what was sent
+            changed = 0
+            for o_ in list(pb.recorded_outputs) + list(pb.playback_outputs):
+                if V.mutate_in_place(tape, o_.value):
+                    changed += 1
+            if changed:
+                run.probe('second_replay_after_mutating_handed_out_outputs')
+                rep2 = R.replay_once(spec2, run, cas2, rec.rec_id, overrides=overrides, sent=True, recorder=recorder2)
+                if rep2.outcome.kind == 'return':
+                    pm2, _ = R.outputs_as_map(rep2.playback.playback_outputs)
+                    rm2, _ = R.outputs_as_map(rep2.playback.recorded_outputs)
+                    run.check(rm2 == exp_r, 'recorded_outputs_equal_sent', 'recorded-differs-on-second-replay',
+                              'after the outputs handed out by a first replay were modified in place, the second replay reports other recorded outputs than were sent')
+                    run.check(pm2 == expected_outputs(rep2.svc, rep2.op_outcome), 'playback_outputs_equal_sent', 'playback-differs-on-second-replay',
+                              'the second replay reports other playback outputs than its code sent')
+                else:
+                    run.violate('replay_completes', 'second-play-raised:%s' % type(rep2.outcome.exc).__name__, 'the second replay raised %r' % (rep2.outcome.exc,))
     finally:
         store.close()
     return run
